@@ -6,12 +6,9 @@ use iggy::{
     error::IggyError,
     utils::{byte_size::IggyByteSize, duration::IggyDuration, sizeable::Sizeable},
 };
-use std::{
-    io::IoSlice,
-    sync::{
-        atomic::{AtomicU64, Ordering},
-        Arc,
-    },
+use std::sync::{
+    atomic::{AtomicU64, Ordering},
+    Arc,
 };
 use tokio::{
     fs::{File, OpenOptions},
@@ -131,9 +128,16 @@ impl SegmentLogWriter {
         if let Some(ref mut file) = self.file {
             let header = batch_to_write.header_as_bytes();
             let batch_bytes = batch_to_write.bytes;
-            let slices = [IoSlice::new(&header), IoSlice::new(&batch_bytes)];
 
-            file.write_vectored(&slices)
+            // write_vectored() may accept only a part of the buffers (a tokio file takes at most
+            // its internal buffer size per call), so every part is written with write_all().
+            file.write_all(&header)
+                .await
+                .with_error_context(|error| {
+                    format!("Failed to log to file: {}. {error}", self.file_path)
+                })
+                .map_err(|_| IggyError::CannotWriteToFile)?;
+            file.write_all(&batch_bytes)
                 .await
                 .with_error_context(|error| {
                     format!("Failed to log to file: {}. {error}", self.file_path)
